@@ -35,7 +35,13 @@ def runConvOp (attrs : Json) (ins : List (Option DT)) : Answer :=
         -- guards of the partial theorem (DESIGN section 8 C05)
         let g1 := if dk.any (· == 1) && !(C == 1 && dk.all (· == 1)) then ["conv.kernel_extent_1"] else []
         let g2 := if mode == "VALID" then ["conv.auto_pad_valid"] else []
-        { model := (okT X.dt (convOp intArith at0 X.t W.t (B.map (·.t)))).checkExact, tags, guard := g1 ++ g2,
+        let st := if strides.isEmpty then List.replicate ns 1 else strides
+        let negPad := mode != "NOTSET" && (List.range ns).any fun i =>
+          let d := dim (X.t.shape.drop 2) i; let s := dim st i; let k := dim dk i
+          ((d + s - 1) / s - 1) * s + k < d
+        let g0 := if negPad then ["conv.auto_pad_negative_padding"] else []
+        let g3 := if sp.isNone then ["conv.kernel_larger_than_input"] else []
+        { model := (okT X.dt (convOp intArith at0 X.t W.t (B.map (·.t)))).checkExact, tags, guard := g0 ++ g3 ++ g1 ++ g2,
           spec := match sp with
             | some t => { domain := "must", outs := some [some (DT.mk X.dt t none)] }
             | none => { domain := "mayRefuse" } }
